@@ -1259,8 +1259,8 @@ func TestVerifC08(t *testing.T) {
 	c.Assume("the shadow model transcribes the documented rules (occurrence time = clock if after the last issued timestamp else last+1ns; repeat when repeat-after is 0 or occurrence > last-repeated + repeat-after of this call)")
 	c.Assume("a goroutine shown as [sync.Cond.Wait] in a runtime.Stack(all) dump taken while holding the state lock has not been signalled since it parked")
 
-	nSeq := kit.Scale(160, 1200)
-	nConc := kit.Scale(50, 300)
+	nSeq := kit.Scale(160, 600)
+	nConc := kit.Scale(50, 150)
 	if only := kit.OnlyCase(); only >= 0 {
 		// replay of one case: sequential indices are < 1e6, concurrent ones >= 1e6
 		baseline := map[int64]bool{}
@@ -1280,6 +1280,9 @@ func TestVerifC08(t *testing.T) {
 	tSeq := time.Now()
 	for i := 0; i < nSeq; i++ {
 		runSeq(c, i)
+		if i%100 == 99 {
+			fmt.Printf("progress: %d/%d sequential histories\n", i+1, nSeq)
+		}
 		if c.Violations() > 3 {
 			break
 		}
@@ -1294,6 +1297,9 @@ func TestVerifC08(t *testing.T) {
 	for i := 0; i < nConc; i++ {
 		if !runConc(c, 1000000+i, baseline) {
 			break
+		}
+		if i%25 == 24 {
+			fmt.Printf("progress: %d/%d concurrent histories\n", i+1, nConc)
 		}
 		if c.Violations() > 3 {
 			break
